@@ -181,6 +181,7 @@ RULES = [
     ("C16-R4", "composition: arguments are evaluated before dispatch", r4),
     ("C16-R3", "argument handling never panics: panic sites of get_value and its helpers are guarded or reviewed [analysis P of C10]",
      lambda ctx: __import__("c10").r1(ctx, only=lambda s: s.fn.startswith("function::get_value") or s.fn in ("util::capitalize", "util::format_filesize", "util::format_filesize::{closure#0}", "searcher::Searcher::get_function_value") or s.fn.startswith("util::datetime::parse_datetime"), rule_prefix="fn-")),
+    ("X-VARIANT", "Variant constructors, text renderings and coercion order [shared]", lambda ctx: __import__("extra").variant_constructors(ctx)),
 ]
 
 EXPLANATION = (
@@ -190,7 +191,8 @@ EXPLANATION = (
     "year/month/day, number_from_sunday, encode/decode ...), with the documented operand roles for REPLACE, SUBSTR, "
     "CONCAT_WS, COALESCE; get_function_value evaluates the argument and every extra argument through the expression "
     "evaluator before dispatch. Argument-parsing panics are decided under C10 (panic-site analysis). The values "
-    "computed by std/chrono/rbase64 are trusted.")
+    "computed by std/chrono/rbase64 are trusted."
+    ' Variant::from_* store the value in the slot of their own type and render numbers plainly.')
 ASSUMPTIONS = ["rustc's HIR faithfully represents the source; exporter and rule scripts are correct",
                "std, chrono, rbase64, human-time compute what their documentation says"]
 NOT_DECIDED = ["the values computed by std / chrono / rbase64 on arbitrary strings", "Unicode edge cases of case conversion"]
